@@ -696,6 +696,9 @@ def check(repo, rep, tier):
     rule_no_reduction(repo, r8)
     r14 = rep.rule("R-C05-14", "operators leave their operands unchanged (no write to .value/.lc of an object that may be an operand)", floor=2)
     rule_no_operand_mutation(repo, r14)
+    r15 = rep.rule("R-C05-15", "an operation is a function of its operands: no result or decomposition is cached on an operand and reused (shared memoryless rule)", floor=4)
+    from .memoryless import rule_memoryless
+    rule_memoryless(repo, r15)
     r9 = rep.rule("R-C05-9", "comparison primitives hint Python's own truth value (over the integers)", floor=2)
     rule_primitive_hints(repo, r9)
     r10 = rep.rule("R-C05-10", "`~` is applied to Boolean wires only, never to plain integers", floor=2)
